@@ -80,6 +80,9 @@ XS = [
     ("search", "", "count().nth(0, (z: int)->{z >= 25}).value()", "MaximumSearch", "search"),
     ("recursion", "fn tt(n: int, a: int)->int{ if(n <= 0, a, tt(n - 1, a + 1)) }\n", "tt(20, 0)", "MaximumRecursion", "recursion"),
     ("size", "", "('ab' * 400).len()", "AllocationLimitReached", "size"),
+    ("size_pow", "", "(7 ** 3000) % 1000", "AllocationLimitReached", "size"),
+    ("size_factorial", "", "factorial(400) % 1000", "AllocationLimitReached", "size"),
+    ("size_seq", "", "range(300).to_array().len()", "AllocationLimitReached", "size"),
     ("permission", "", "regex('a').search('a').has_value().if(1, 0)", 'PermissionError("regex")', None),
     ("output", "", "display(5)", "OutputFailure", "fail_write_after"),
 ]
